@@ -68,6 +68,10 @@ def run_tlc(module, cfg, workdir, workers=NCPU, env=None, extra=(), timeout=3600
     if env:
         e.update({k: str(v) for k, v in env.items()})
     cmd = _tlc_cmd(module, cfg, workers, metadir, extra, heap, gcthreads)
+    # TLC unpacks its standard modules into java.io.tmpdir and leaves them there: keep that inside the run's own scratch
+    jtmp = metadir + '_jtmp'
+    os.makedirs(jtmp, exist_ok=True)
+    cmd.insert(1, '-Djava.io.tmpdir=' + jtmp)
     try:
         p = subprocess.run(cmd, cwd=SPEC, env=e, stdout=subprocess.PIPE, stderr=subprocess.STDOUT,
                            timeout=timeout, text=True)
@@ -80,6 +84,7 @@ def run_tlc(module, cfg, workdir, workers=NCPU, env=None, extra=(), timeout=3600
         rc = 124
     finally:
         shutil.rmtree(metadir, ignore_errors=True)
+        shutil.rmtree(jtmp, ignore_errors=True)
     res = parse_tlc(out)
     res['rc'] = rc
     return res, out
